@@ -42,6 +42,8 @@ def fresh(rng, n=None, stamped=True, mode=None, materialise=None):
     tr = gen.make_evo(arr, mode, stamped, flavour=gen.rand_flavour(rng))
     if materialise if materialise is not None else (rng.random() < .5):
         tr.poses_se3, tr.positions_xyz, tr.orientations_quat_wxyz
+    elif materialise is None:
+        gen.age(rng, tr)
     return tr, arr, mode
 
 
